@@ -18,6 +18,13 @@ def keep (c : Bytes) : Option Comp :=
   else if c = dotdot then some .parent
   else some (.normal c)
 
+/-- a component the walk may push onto its expected path: non-empty, slash-free, not `.`/`..` -/
+def GoodComp (n : Bytes) : Prop :=
+  n ≠ [] ∧ containsSlash n = false ∧ n ≠ dot ∧ n ≠ dotdot
+
+theorem _root_.World.ProperComp.good {n : Bytes} (h : World.ProperComp n) : GoodComp n :=
+  ⟨h.1, h.2.1, h.2.2.1, h.2.2.2.1⟩
+
 def pieces (p : Bytes) : List Comp := (splitSlash p).filterMap keep
 
 theorem splitSlash_cons_slash (x : Bytes) : splitSlash (slash :: x) = [] :: splitSlash x := by
@@ -98,10 +105,10 @@ theorem pieces_joinSlash (l : List Bytes) (hl : ∀ c ∈ l, containsSlash c = f
   | nil => simp [pieces, joinSlash, splitSlash, keep]
   | cons x rest => unfold pieces; rw [splitSlash_joinSlash _ hl (by simp)]
 
-theorem keep_proper (n : Bytes) (h : World.ProperComp n) : keep n = some (.normal n) := by
-  simp [keep, h.1, h.2.2.1, h.2.2.2.1]
+theorem keep_proper (n : Bytes) (h : GoodComp n) : keep n = some (.normal n) := by
+  simp [keep, h.1, h.2.2.1, h.2.2.2]
 
-theorem filterMap_keep_proper (l : List Bytes) (hl : ∀ c ∈ l, World.ProperComp c) :
+theorem filterMap_keep_proper (l : List Bytes) (hl : ∀ c ∈ l, GoodComp c) :
     l.filterMap keep = l.map Comp.normal := by
   induction l with
   | nil => rfl
@@ -143,14 +150,14 @@ theorem pieces_append_slash (a b : Bytes) : pieces (a ++ slash :: b) = pieces a 
   unfold pieces
   rw [splitSlash_append, List.filterMap_append]
 
-theorem proper_noslash {n : Bytes} (h : World.ProperComp n) : containsSlash n = false := h.2.1
+theorem proper_noslash {n : Bytes} (h : GoodComp n) : containsSlash n = false := h.2.1
 
-theorem pieces_proper (n : Bytes) (h : World.ProperComp n) : pieces n = [.normal n] := by
+theorem pieces_proper (n : Bytes) (h : GoodComp n) : pieces n = [.normal n] := by
   unfold pieces
   rw [splitSlash_single_piece n (proper_noslash h)]
   simp [keep_proper n h]
 
-theorem proper_not_abs {n : Bytes} (h : World.ProperComp n) : isAbsolute n = false := by
+theorem proper_not_abs {n : Bytes} (h : GoodComp n) : isAbsolute n = false := by
   unfold isAbsolute
   cases n with
   | nil => exact absurd rfl h.1
@@ -216,7 +223,7 @@ theorem pieces_foldl_push (l : List Bytes) (hl : ∀ c ∈ l, isAbsolute c = fal
       | nil => exact absurd rfl hacc
       | cons c r => split <;> simp [isAbsolute]
 
-theorem flatten_pieces_proper (e : List Bytes) (he : ∀ c ∈ e, World.ProperComp c) :
+theorem flatten_pieces_proper (e : List Bytes) (he : ∀ c ∈ e, GoodComp c) :
     (e.map pieces).flatten = e.map Comp.normal := by
   induction e with
   | nil => rfl
@@ -225,10 +232,11 @@ theorem flatten_pieces_proper (e : List Bytes) (he : ∀ c ∈ e, World.ProperCo
 
 /-- **the path `check_current` expects is the path the kernel prints** for an object whose
 components below the root are `e` -/
-theorem expected_eq_render (w : World) (hw : w.WF) (e : List Bytes) (he : ∀ c ∈ e, World.ProperComp c) :
+theorem expected_eq_render (w : World) (hw : w.WF) (e : List Bytes) (he' : ∀ c ∈ e, World.ProperComp c) :
     pathEq (w.render e) (expectedFullPath (w.render []) e) = true := by
-  have hR := hw.root_comps
-  have hRe : ∀ c ∈ w.rootComps ++ e, World.ProperComp c := by
+  have he : ∀ c ∈ e, GoodComp c := fun c hc => (he' c hc).good
+  have hR : ∀ n ∈ w.rootComps, GoodComp n := fun n hn => (hw.root_comps n hn).good
+  have hRe : ∀ c ∈ w.rootComps ++ e, GoodComp c := by
     intro c hc
     rcases List.mem_append.mp hc with h | h
     · exact hR c h
